@@ -58,6 +58,11 @@ func main() {
 		n, _ := strconv.Atoi(os.Args[2])
 		seed, _ := strconv.Atoi(os.Args[3])
 		record(n, int64(seed))
+	case "storm": // storm ROUNDS K PROCS consume|produce [queue|deque]
+		rounds, _ := strconv.Atoi(os.Args[2])
+		k, _ := strconv.Atoi(os.Args[3])
+		procs, _ := strconv.Atoi(os.Args[4])
+		storm(rounds, k, procs, os.Args[5])
 	}
 	rt.Flush()
 }
